@@ -330,6 +330,18 @@ let run_lv4read toks =
       | _ -> failwith "req") reqs)
   | _ -> failwith "lv4read args"
 
+(* lv4bound <level-4 data the file holds> <block size> <claimed size> <pos,n> ...  ->  per request the lengths of the blocks the
+   loop fetches (hex, comma separated; "-" for none) | e:Err *)
+let run_lv4bound toks =
+  match toks with
+  | d :: b :: c :: reqs ->
+    String.concat " " (Stdlib.List.map (fun t -> match String.split_on_char ',' t with
+      | [p; n] -> (match IvfcBound.read_blocks (bytes_of_hex d) (z_of_hex b) (z_of_hex c) (z_of_hex p) (z_of_hex n) with
+                   | Err e -> "e:" ^ err_name e
+                   | Ok bl -> if bl = [] then "-" else String.concat "," (Stdlib.List.map (fun x -> string_of_int (Stdlib.List.length x)) bl))
+      | _ -> failwith "req") reqs)
+  | _ -> failwith "lv4bound args"
+
 (* ---- C16: closing ------------------------------------------------------ *)
 let run_close toks =
   match toks with
@@ -502,6 +514,7 @@ let dispatch (line : string) : string =
   | "dpfsread" :: toks -> run_dpfsread toks
   | "dpfswrite" :: toks -> run_dpfswrite toks
   | "lv4read" :: toks -> run_lv4read toks
+  | "lv4bound" :: toks -> run_lv4bound toks
   | "close" :: toks -> run_close toks
   | "nandhdr" :: toks -> run_nandhdr toks
   | "lzss" :: toks -> run_lzss toks
